@@ -3,8 +3,8 @@ import Jose.Json
   Abstract primitives.  Everything jose delegates to OpenSSL / zlib is a field of
   `Prims`; model functions and theorems are parameterised by a `Prims` value and
   hold for every one.  Laws needed by particular theorems are *hypotheses* of
-  those theorems (see `PrimLaws` below), never axioms.  The driver instantiates
-  `Prims` with the executable implementations of `Jose/Crypto/*` (Driver/Prims.lean).
+  those theorems, never axioms.  The driver instantiates `Prims` with the
+  executable implementations of `Jose/Crypto/*` (Driver/Prims.lean).
 -/
 namespace Jose
 
@@ -13,5 +13,17 @@ abbrev Bs := List Nat   -- byte strings in the model
 structure Prims where
   /-- digest by jose hash name (S1, S224, S256, S384, S512); `none` for unknown names -/
   hash : String → Option (Bs → Bs)
+  /-- HMAC with the named hash: key, message -/
+  hmac : String → Bs → Bs → Bs := fun _ _ _ => []
+  /-- what `EC_KEY_check_key` decides for curve, x, y and optional d (byte strings as decoded) -/
+  ecValid : String → Bs → Bs → Option Bs → Bool := fun _ _ _ _ => false
+  /-- `ECDSA_do_verify`: curve, x, y, digest, r, s -/
+  ecdsaVerify : String → Bs → Bs → Bs → Bs → Bs → Bool := fun _ _ _ _ _ _ => false
+  /-- `ECDSA_do_sign`: curve, d, digest, randomness → (r, s) each of the curve's width -/
+  ecdsaSign : String → Bs → Bs → Bs → Option (Bs × Bs) := fun _ _ _ _ => none
+  /-- `EVP_DigestVerifyFinal` for RSA: pss?, hash name, n, e, message, signature -/
+  rsaVerify : Bool → String → Bs → Bs → Bs → Bs → Bool := fun _ _ _ _ _ _ => false
+  /-- `EVP_DigestSignFinal` for RSA: pss?, hash name, n, d, message, salt -/
+  rsaSign : Bool → String → Bs → Bs → Bs → Bs → Option Bs := fun _ _ _ _ _ _ => none
 
 end Jose
